@@ -101,6 +101,10 @@ def unfold_rules(thm):
         if ent is None:
             return []
         f, sp = ent
+        ck = t.sexpr()
+        hit = _UNFOLD_CACHE.get(ck)
+        if hit is not None:
+            return hit
         args = [from_z(c, ty) for c, ty in zip(t.children(), sp["args"])]
         fd = engine._spec_fdef(f)
 
@@ -125,9 +129,13 @@ def unfold_rules(thm):
             val = to_z(p.value, sp["ret"])
             cond = z3.And(*p.pc) if p.pc else z3.BoolVal(True)
             out.append(z3.Implies(cond, t == val))
+        _UNFOLD_CACHE[ck] = out
         return out
 
     return [rule, map_rule] + lemma_rules(thm)
+
+
+_UNFOLD_CACHE = {}
 
 
 def _lemma_b58val_nonneg(t):
@@ -137,7 +145,34 @@ def _lemma_b58val_nonneg(t):
     return []
 
 
-LEMMAS = {"b58val_nonneg": _lemma_b58val_nonneg}   # enabled per theorem via options["lemmas"]
+SECP_P = 0xFFFFFFFFFFFFFFFFFFFFFFFFFFFFFFFFFFFFFFFFFFFFFFFFFFFFFFFEFFFFFC2F
+
+
+def _lemma_pow_zero(t):
+    """In the field Z/p (p prime): c**e = 0 (e >= 1) only if c = 0.   lean/Field.lean: pow_eq_zero_field"""
+    if t.decl().kind() == z3.Z3_OP_UNINTERPRETED and t.decl().name() == "powmod":
+        c, e, m = t.children()
+        if z3.is_int_value(m) and m.as_long() == SECP_P:
+            return [z3.Implies(z3.And(e >= 1, t == 0), c % m == 0)]
+    return []
+
+
+def _lemma_no_two_torsion(t):
+    """No x satisfies x**3 + 7 = 0 (mod p): secp256k1 has no point with y = 0.   lean/Field.lean: no_two_torsion"""
+    out = []
+    if z3.is_app_of(t, z3.Z3_OP_MOD) and z3.is_int_value(t.arg(1)) and t.arg(1).as_long() == SECP_P:
+        a = t.arg(0)
+        # pattern  (7 + x*x*x) % p  /  (x*x*x + 7) % p
+        if z3.is_app_of(a, z3.Z3_OP_ADD) and len(a.children()) == 2:
+            ch = a.children()
+            for c7, cube in ((ch[0], ch[1]), (ch[1], ch[0])):
+                if z3.is_int_value(c7) and c7.as_long() == 7 and z3.is_app_of(cube, z3.Z3_OP_MUL) and len(cube.children()) == 3 \
+                        and cube.arg(0).eq(cube.arg(1)) and cube.arg(1).eq(cube.arg(2)):
+                    out.append(t != 0)
+    return out
+
+
+LEMMAS = {"b58val_nonneg": _lemma_b58val_nonneg, "pow_zero": _lemma_pow_zero, "no_two_torsion": _lemma_no_two_torsion}   # enabled per theorem via options["lemmas"]
 
 
 def lemma_rules(thm):
